@@ -288,6 +288,7 @@ class Inliner:
         self.expanded = 0
         self.records = {}   # name of a new private record class -> (ClassDef, __init__, [field names])
         self.local_types = {}  # within the function being processed: local name -> record class name
+        self.unique_new = {}
 
     def _record_class(self, node):
         """(init, fields) when the class is a plain record the rules do not know: no bases but object, no decorators, a body of
@@ -348,6 +349,32 @@ class Inliner:
                         self.methods[(node.name, m.name)] = m
 
     # -- finding an expandable call in a statement header
+    def _unique_new_methods(self):
+        """name -> (class name, FunctionDef) for methods that are not functions of the pinned tree, whose name no other function or
+        method of the module (old or new) carries: a call `<name>.<that method>(...)` can only mean this one"""
+        if self.known is None:
+            return {}
+        seen = {}
+        for node in self.tree.body:
+            if isinstance(node, ast.ClassDef):
+                for m in node.body:
+                    if isinstance(m, ast.FunctionDef):
+                        seen.setdefault(m.name, []).append((node.name, m))
+            elif isinstance(node, ast.FunctionDef):
+                seen.setdefault(node.name, []).append((None, node))
+        out = {}
+        for name, lst in seen.items():
+            if len(lst) != 1 or lst[0][0] is None or name.startswith("__"):
+                continue
+            cn, m = lst[0]
+            if ("%s.%s" % (cn, name)) in self.known or any(k.split(".")[-1] == name for k in self.known):
+                continue
+            if cn in self.records:
+                continue
+            if _eligible(m, private=False) and m.args.args:
+                out[name] = (cn, m)
+        return out
+
     def _header_fields(self, st):
         if isinstance(st, (ast.Expr, ast.Return)) and st.value is not None:
             return ["value"]
@@ -371,6 +398,10 @@ class Inliner:
             return h, (None if static else f.value)
         if isinstance(f, ast.Attribute) and isinstance(f.value, ast.Name) and f.value.id in self.local_types and (self.local_types[f.value.id], f.attr) in self.methods:
             return self.methods[(self.local_types[f.value.id], f.attr)], f.value
+        if isinstance(f, ast.Attribute) and isinstance(f.value, ast.Name) and f.attr in self.unique_new:
+            cn, h = self.unique_new[f.attr]
+            if not any(isinstance(d, ast.Name) and d.id in ("staticmethod", "classmethod") for d in h.decorator_list) and not h.decorator_list:
+                return h, f.value
         return None, None
 
     def _find(self, st, cls_name, self_name):
@@ -724,7 +755,8 @@ class Inliner:
 
     def run(self):
         self.collect()
-        if not self.funcs and not self.methods and not self.records:
+        self.unique_new = self._unique_new_methods()
+        if not self.funcs and not self.methods and not self.records and not self.unique_new:
             return self.tree
         for node in self.tree.body:
             if isinstance(node, (ast.FunctionDef, ast.AsyncFunctionDef)):
